@@ -40,7 +40,7 @@ def correspondence(ctx):
             sc = RC.gen_scene(rng, kind, N, psf, types=[EXT[(i + ci) % 5]], mode="single", pos_styles=("frac", "half", "int"), **opts)
             for k in sc["params"]:
                 if k.startswith("ellip"):
-                    sc["params"][k] = float(rng.uniform(0.3, 0.8))      # orientation matters
+                    sc["params"][k] = 0.8 if (i + ci) % 3 == 0 else float(rng.uniform(0.3, 0.8))      # orientation matters; the edge of the domain included
             scenes.append(sc)
     dis, stats = RC.render_tie(ctx, scenes)
     return dict(name="render_source vs Pysersic.Render.sceneArr (elongated sources: every convention is visible)", evaluations=2 * len(scenes),
@@ -54,7 +54,7 @@ def gen_cases(ctx, n_per_kind):
     cases = []
     for kind in ("pixel", "fourier", "hybrid"):
         for i in range(n_per_kind):
-            N = int(rng.choice([48, 64]))
+            N = [48, 49, 64, 65][(i + int(rng.integers(0, 4))) % 4]     # even and odd image sides
             t = EXT[i % 5]
             if kind == "pixel":
                 psf = np.ones((1, 1)) if i % 2 else RC.gauss_psf(9, float(rng.uniform(1.1, 1.5)), q=float(rng.uniform(0.8, 1.0)))
@@ -71,7 +71,8 @@ def gen_cases(ctx, n_per_kind):
                 if k.startswith("r_eff"):
                     p[k] = float(rng.uniform(1.5, N / 12))
                 if k.startswith("ellip"):
-                    p[k] = float(rng.uniform(0.3, 0.8))
+                    # the orientation / axis-ratio clauses hold for 0.3 ≤ ellip ≤ 0.8: every third case sits on the upper edge
+                    p[k] = 0.8 if i % 3 == 1 else float(rng.uniform(0.3, 0.8))
             if t in ("doublesersic", "sersic_exp") and (i // 5) % 2 == 0:
                 p["ellip_2"] = p["ellip_1"]            # one well-defined axis ratio for the composite (every other round: two different ones)
             if np.asarray(psf).shape[0] % 2 == 0:
@@ -91,6 +92,27 @@ def gen_cases(ctx, n_per_kind):
                 lo_c, hi_c = min(m, (N - 1) / 2), max(N - 1 - m, (N - 1) / 2)
                 p["xc"], p["yc"] = float(rng.uniform(lo_c, hi_c)), float(rng.uniform(lo_c, hi_c))
             cases.append(RC.cast32_scene(sc))
+        # the non-default amplitude path (use_interp_amps=False: the decomposition is computed per call), judged in 64-bit mode
+        if kind != "pixel":
+            for i in range(max(1, n_per_kind // 5)):
+                N = [48, 49, 64][i % 3]
+                psf = RC.gauss_psf(11, float(rng.uniform(1.1, 1.6)))
+                sc = RC.gen_scene(rng, kind, N, psf, types=[["sersic", "exp", "sersic_exp"][i % 3]], mode="single", suffix="", pos_styles=("frac",), n_range=(0.8, 4.0),
+                                  interp=False)
+                p = sc["params"]
+                for k in p:
+                    if k.startswith("r_eff"):
+                        p[k] = float(rng.uniform(2.5, N / 12))
+                    if k.startswith("ellip"):
+                        p[k] = float(rng.uniform(0.3, 0.7))
+                if "ellip_2" in p:
+                    p["ellip_2"] = p["ellip_1"]
+                p["flux"] = float(rng.uniform(50, 500))
+                rr = max(v for k, v in p.items() if k.startswith("r_eff"))
+                m = max(6 * rr, 8)
+                lo_c, hi_c = min(m, (N - 1) / 2), max(N - 1 - m, (N - 1) / 2)
+                p["xc"], p["yc"] = float(rng.uniform(lo_c, hi_c)), float(rng.uniform(lo_c, hi_c))
+                cases.append(RC.cast32_scene(sc))
     return cases
 
 
@@ -103,7 +125,8 @@ def oracle_child(payload):
             N, kind, t = sc["N"], sc["kind"], sc["types"][0]
             R = RC.build_renderer(sc)
             P = sc["params"]
-            img = np.asarray(R.render_source({k: jnp.float32(v) for k, v in P.items()}, t), dtype=np.float64)
+            ft = jnp.float32 if sc.get("interp", True) else jnp.float64
+            img = np.asarray(R.render_source({k: ft(v) for k, v in P.items()}, t), dtype=np.float64)
             ref = RC.reference_image(N, sc["psf"], t, P)
             rr = max(v for k, v in P.items() if k.startswith("r_eff"))
             sw = max(2.0 * rr, 3.0)
@@ -170,7 +193,13 @@ def half_light_child(payload):
 
 def oracle_run(ctx, scenes):
     w = min(ctx.workers, 8)
-    res = RC.unchunk(run_children("c02", "oracle_child", [dict(scenes=ch) for ch in RC.chunked(scenes, w)], x64=False, workers=w, timeout=3000), len(scenes))
+    std = [s for s in scenes if s.get("interp", True)]
+    direct = [s for s in scenes if not s.get("interp", True)]
+    res = RC.unchunk(run_children("c02", "oracle_child", [dict(scenes=ch) for ch in RC.chunked(std, w)], x64=False, workers=w, timeout=3000), len(std))
+    if direct:
+        res = res + RC.unchunk(run_children("c02", "oracle_child", [dict(scenes=ch) for ch in RC.chunked(direct, min(w, len(direct)))], x64=True,
+                                            workers=w, timeout=3000), len(direct))
+    scenes = std + direct
     out = []
     for s, r in zip(scenes, res):
         for clause, msg in r["fails"]:
